@@ -197,4 +197,43 @@ example : runs [2, 3, 5, 7, 8, 9] = [[2, 3], [5], [7, 8, 9]] := by decide +kerne
 example : offsets 4 [10, 20] = [(4, 23), (23, 52)] := by decide +kernel
 example : nudge (-128) 127 128 = 127 ∧ nudge (-128) 127 130 = 130 := by decide +kernel
 
+/-! ### C07/C14: `glue_together._copy_cbdt` re-shards strikes with a second implementation of the run splitting -/
+theorem takeRun_length (p : Nat) : ∀ (gs : List Nat), (takeRun p gs).2.length ≤ gs.length
+  | [] => by simp [takeRun]
+  | g :: gs => by
+    unfold takeRun
+    split
+    · have := takeRun_length g gs
+      simp only [List.length_cons]
+      omega
+    · simp
+
+theorem runsAux_takeRun : ∀ (gs : List Nat) (p : Nat) (cur : List Nat),
+    runsAux (p :: cur) gs = ((p :: cur).reverse ++ (takeRun p gs).1) :: runsAux [] (takeRun p gs).2
+  | [], p, cur => by simp [runsAux, takeRun]
+  | g :: gs, p, cur => by
+    rw [runsAux]
+    unfold takeRun
+    split
+    · rw [runsAux_takeRun gs g (p :: cur)]
+      simp
+    · rename_i h
+      simp [runsAux]
+
+/-- the loop of `_copy_cbdt` computes exactly the runs of `make_cbdt_table`, so `runs_concat` and `runs_consecutive`
+(every glyph in exactly one strike, every strike a run of consecutive glyph IDs) hold for the re-sharded tables too -/
+theorem copyRuns_eq_runs : ∀ (fuel : Nat) (l : List Nat), l.length ≤ fuel → copyRuns fuel l = runs l
+  | _, [], _ => by
+    cases ‹Nat› <;> simp [copyRuns, runs, runsAux]
+  | 0, g :: gs, h => by simp at h
+  | fuel + 1, g :: gs, h => by
+    simp only [copyRuns, runs]
+    rw [runsAux, runsAux_takeRun gs g []]
+    simp only [List.reverse_cons, List.reverse_nil, List.nil_append, List.singleton_append]
+    congr 1
+    have hl := takeRun_length g gs
+    exact copyRuns_eq_runs fuel (takeRun g gs).2 (by simp only [List.length_cons] at h; omega)
+
+example : copyRuns 6 [0, 2, 3, 7, 8, 9] = [[0], [2, 3], [7, 8, 9]] := by decide +kernel
+
 end NanoVerif.C14
